@@ -169,8 +169,11 @@ def shrink(mod, viol):
             budget -= 1
             if budget <= 0 or time.time() > deadline:
                 break
-            r = canon(safe_impl(mod, cand))
-            vs = [v for v in (mod.oracle(cand, r) or []) if v["sig"] == best["sig"]]
+            try:
+                r = canon(safe_impl(mod, cand))
+                vs = [v for v in (mod.oracle(cand, r) or []) if v["sig"] == best["sig"]]
+            except Exception:  # noqa  a candidate the oracle cannot judge is simply not kept: the violation found stands
+                continue
             if vs:
                 best = dict(case=cand, impl=r, sig=best["sig"], what=vs[0]["what"])
                 progress = True
